@@ -111,6 +111,11 @@ fn main() {
         "script" => {
             let out = BufWriter::new(File::create(&args[3]).unwrap());
             let mut d = Driver::new(Box::new(out));
+            d.wal = Some(format!("{}.cur", &args[3]));
+            // `--light-last`: the last op of the script is observed structurally only
+            let light_last = args.get(4).map(|a| a == "--light-last").unwrap_or(false);
+            let nlines = BufReader::new(File::open(&args[2]).unwrap()).lines().filter(|l| !l.as_ref().unwrap().trim().is_empty()).count();
+            let mut k = 0usize;
             let mut skip = false;
             for line in BufReader::new(File::open(&args[2]).unwrap()).lines() {
                 let line = line.unwrap();
@@ -119,6 +124,10 @@ fn main() {
                 }
                 let op: Value = serde_json::from_str(&line).unwrap();
                 let name = op["op"].as_str().unwrap();
+                k += 1;
+                if light_last && k == nlines {
+                    d.light = true;
+                }
                 if name == "reset" {
                     skip = false;
                 }
@@ -134,6 +143,15 @@ fn main() {
                     skip = true;
                 }
             }
+            if light_last {
+                // the state may be corrupt: do not run destructors
+                for s in d.ws.iter_mut() {
+                    if let Some(s) = s.take() {
+                        std::mem::forget(s);
+                    }
+                }
+                std::process::exit(0);
+            }
             d.exec(&json!({"op": "reset"}));
         }
         "random" => {
@@ -142,6 +160,7 @@ fn main() {
             let nops: usize = args[4].parse().unwrap();
             let out = BufWriter::new(File::create(&args[5]).unwrap());
             let mut d = Driver::new(Box::new(out));
+            d.wal = Some(format!("{}.cur", &args[5]));
             for h in 0..histories {
                 let mut rng = StdRng::seed_from_u64(seed.wrapping_mul(1_000_003).wrapping_add(h as u64));
                 for _ in 0..nops {
